@@ -1,6 +1,9 @@
 #include "q120h.h"
 
-const char* const q120_kernel_name[N_KERNELS] = {"q120_vec_mat1col_product_baa", "q120_vec_mat1col_product_bbb", "q120_vec_mat1col_product_bbc", "q120x2_vec_mat1col_product_bbc", "q120x2_vec_mat2cols_product_bbc"};
+const char* const q120_kernel_name[N_KERNELS] = {"q120_vec_mat1col_product_baa", "q120_vec_mat1col_product_bbb", "q120_vec_mat1col_product_bbc", "q120x2_vec_mat1col_product_bbc", "q120x2_vec_mat2cols_product_bbc", "q120_vec_mat1col_product_bbc(old)", "q120x2_vec_mat2cols_product_bbc(old)"};
+// not declared in any header of the library
+extern void q120_vec_mat1col_product_bbc_ref_old(q120_mat1col_product_bbc_precomp*, const uint64_t, q120b* const, const q120b* const, const q120c* const);
+extern void q120x2_vec_mat2cols_product_bbc_avx2_old(q120_mat1col_product_bbc_precomp*, const uint64_t, q120b* const, const q120b* const, const q120c* const);
 const char* const q120_fam_name[QF_N] = {"random", "noncanonical", "allmax", "alternate", "singlemax", "nearmultiple"};
 
 static uint64_t near_mult(rng_t* r, uint64_t q, unsigned maxbits) {
@@ -96,7 +99,10 @@ static q120_mat1col_product_baa_precomp* P_baa;
 static q120_mat1col_product_bbb_precomp* P_bbb;
 static q120_mat1col_product_bbc_precomp* P_bbc;
 
-uint64_t q120_product_check(q120_kernel_t k, int avx2, uint64_t ell, int famx, int famy, rng_t* r, unsigned mis) {
+uint64_t q120_product_check(q120_kernel_t k0, int avx2, uint64_t ell, int famx, int famy, rng_t* r, unsigned mis) {
+  if (!q120_kernel_has(k0, avx2)) avx2 = !avx2;
+  // shape (layouts, outputs) of the historical kernels is the one of their successors
+  const q120_kernel_t k = k0 == K_BBC_OLD ? K_BBC : (k0 == K_X2_2COLS_OLD ? K_X2_2COLS : k0);
   // fresh precomputations for every call, created in one of the six possible orders: a table must not depend on
   // which other tables were built before it
   {
@@ -133,7 +139,9 @@ uint64_t q120_product_check(q120_kernel_t k, int avx2, uint64_t ell, int famx, i
   snap_t sx, sy;
   snap_take(&sx, x, ell * xs);
   snap_take(&sy, y, ell * ys);
-  switch (k) {
+  if (k0 == K_BBC_OLD) q120_vec_mat1col_product_bbc_ref_old(P_bbc, ell, (q120b*)res, (q120b*)x, (q120c*)y);
+  else if (k0 == K_X2_2COLS_OLD) q120x2_vec_mat2cols_product_bbc_avx2_old(P_bbc, ell, (q120b*)res, (q120b*)x, (q120c*)y);
+  else switch (k) {
     case K_BAA: (avx2 ? q120_vec_mat1col_product_baa_avx2 : q120_vec_mat1col_product_baa_ref)(P_baa, ell, (q120b*)res, (q120a*)x, (q120a*)y); break;
     case K_BBB: (avx2 ? q120_vec_mat1col_product_bbb_avx2 : q120_vec_mat1col_product_bbb_ref)(P_bbb, ell, (q120b*)res, (q120b*)x, (q120b*)y); break;
     case K_BBC: (avx2 ? q120_vec_mat1col_product_bbc_avx2 : q120_vec_mat1col_product_bbc_ref)(P_bbc, ell, (q120b*)res, (q120b*)x, (q120c*)y); break;
@@ -159,13 +167,13 @@ uint64_t q120_product_check(q120_kernel_t k, int avx2, uint64_t ell, int famx, i
       }
       uint64_t got = res[4 * o + p];
       if (got % q != acc)
-        viol("oracle", "%s_%s ell=%" PRIu64 " output %zu prime %d: lane %" PRIu64 " = %" PRIu64 " mod q, exact %" PRIu64 " (x=%s y=%s)", q120_kernel_name[k], avx2 ? "avx2" : "ref", ell, o, p, got, got % q, acc, q120_fam_name[famx], q120_fam_name[famy]);
+        viol("oracle", "%s_%s ell=%" PRIu64 " output %zu prime %d: lane %" PRIu64 " = %" PRIu64 " mod q, exact %" PRIu64 " (x=%s y=%s)", q120_kernel_name[k0], avx2 ? "avx2" : "ref", ell, o, p, got, got % q, acc, q120_fam_name[famx], q120_fam_name[famy]);
       lanes++;
     }
   }
-  if (snap_cmp_free(&sx) >= 0 || snap_cmp_free(&sy) >= 0) viol("snapshot", "%s_%s modified an operand", q120_kernel_name[k], avx2 ? "avx2" : "ref");
+  if (snap_cmp_free(&sx) >= 0 || snap_cmp_free(&sy) >= 0) viol("snapshot", "%s_%s modified an operand", q120_kernel_name[k0], avx2 ? "avx2" : "ref");
   long wh;
-  if (gb_check(&gx, &wh) || gb_check(&gy, &wh) || gb_check(&gr, &wh)) viol("canary", "%s_%s wrote outside a buffer (%ld)", q120_kernel_name[k], avx2 ? "avx2" : "ref", wh);
+  if (gb_check(&gx, &wh) || gb_check(&gy, &wh) || gb_check(&gr, &wh)) viol("canary", "%s_%s wrote outside a buffer (%ld)", q120_kernel_name[k0], avx2 ? "avx2" : "ref", wh);
   gb_free(&gx);
   gb_free(&gy);
   gb_free(&gr);
